@@ -164,5 +164,9 @@ def run_glue(ctx):
             ctx.violate("only-documented-exceptions", "glue-" + o[:40], inp, "a value, TIMEOUT, CLOSED or the transport's own exception", o, size=2)
         if inp["op"] == "_socket.recv" and inp["first"] == "d0" and o != "CLOSED":
             ctx.violate("progress", "end-of-stream-handed-up-as-an-empty-read", inp, "CLOSED", o, size=1)
+        if inp["op"] == "_socket.recv" and not inp["nonblocking"] and inp["first"] in ("W", "A", "A2") and inp["select_ready"] \
+                and inp["second"] == "d1" and o != "ok":
+            # a TLS record that has only partly arrived (want-read) / EAGAIN, then the socket turns readable: the call reads again
+            ctx.violate("only-documented-exceptions", "would-block-then-readable-not-read-again", inp, "the bytes the second read returns", o, size=2)
         if inp["op"] == "_socket.recv" and inp["first"] in ("T", "T2", "S1") and o != "TIMEOUT":
             ctx.violate("only-documented-exceptions", "timeout-not-mapped", inp, "TIMEOUT", o, size=1)
